@@ -27,6 +27,8 @@ func checkC17(r *core.Run) {
 	ruleUnbindAll(r, "T-unbind-all", "did/keeper.msgServer.Update")
 	r.Rule("T-loopvar: in the did message handlers no address of a per-loop variable is stored into a slice/field inside its loop")
 	ruleLoopVarAddr(r, "T-loopvar", "did/keeper.msgServer.")
+	r.Rule("T-splice-skip: no loop in module did removes the element at its upward-counting index from a list and carries on with the next index (the neighbour of a removed element would be skipped and stay listed although its records are removed)")
+	ruleSpliceSkip(r, "T-splice-skip", "did/keeper.")
 	r.Assume(aDeps)
 	r.Assume(aCG)
 
